@@ -310,6 +310,10 @@ func c19Pw(p string) string {
 	case "L2":
 		return c19Long[:72] + "-another-tail-entirely"
 	}
+	// "<class>+ws": the class's password with white space around it - another password
+	if base, ok := strings.CutSuffix(p, "+ws"); ok {
+		return []string{" ", "\t"}[len(base)%2] + c19Pw(base) + " "
+	}
 	return map[string]string{"p1": "correct-horse-1", "p2": "battery-staple-2", "e": "", "intruder": c19IntruderPw}[p]
 }
 
@@ -1094,6 +1098,13 @@ func TestC19(t *testing.T) {
 					va.Var = true
 					switch {
 					case ed.Act.N == "Login" && real.SetCookie != "":
+						// ... nor does the password with white space around it: it is not the user's password
+						wa := ed.Act
+						wa.Pw += "+ws"
+						if pr := c19Restore(snap).do(wa, 0, ""); pr.SetCookie != "" || pr.Reply.Kind == "json" || pr.Reply.Kind == "assertion" {
+							rep.Violation(key+":padded-password", fmt.Sprintf("a login as %s with the user's password surrounded by white space - not the user's password - opens a session", ed.Act.U), replay(map[string]any{"probe": pr.Reply}))
+							return
+						}
 						if pr := c19Restore(snap).do(va, 0, ""); pr.SetCookie != "" || pr.Reply.Kind == "json" || pr.Reply.Kind == "assertion" {
 							rep.Violation(key+":case-variant-user", fmt.Sprintf("a login as %q - no such user exists, %q does - with %s's password opens a session", c19CaseVar(ed.Act.U), ed.Act.U, ed.Act.U), replay(map[string]any{"probe": pr.Reply}))
 							return
